@@ -35,8 +35,8 @@ func SanitizeProfile(off map[string]bool) *Profile {
 }
 
 // WildProfile is the C07 domain: everything, inside or outside the soundness fragment.
-func WildProfile() *Profile {
-	p := SanitizeProfile(nil)
+func WildProfile(off map[string]bool) *Profile {
+	p := SanitizeProfile(map[string]bool{"closure-recursion": off["closure-recursion"]})
 	p.Name = "wild"
 	p.Wild = true
 	p.Weights["wild"] = 14
